@@ -5,6 +5,7 @@ ShowV(v) == CASE v.t = "int" -> ToString(v.n)
               [] v.t = "float" -> ToString(v.n) \o ".0"
               [] v.t = "bool" -> IF v.n = 1 THEN "True" ELSE "False"
               [] v.t = "none" -> "None"
+              [] v.t = "str" -> v.s
               [] v.t = "err" -> "ERR"
               [] OTHER -> "<obj>"
 ShowObs(o1) == [i \in DOMAIN o1 |-> [j \in DOMAIN o1[i] |-> ShowV(o1[i][j])]]
